@@ -154,6 +154,20 @@ def run_program(excutils, prog, flag0, kind, post_mode='force', explicit_logger=
             redrop = (0, lg2.errors)
         except BaseException as e:   # noqa
             redrop = (getattr(e, 'vid', -1), lg2.errors)
+    elif ctx_box and post_mode == 'capture_fail':
+        # (beyond the statement) capture() with no exception active fails - and leaves what was saved alone
+        try:
+            ctx_box[0].capture()
+            cf = 'returned'
+        except RuntimeError:
+            cf = 'RuntimeError'
+        except BaseException as e:   # noqa
+            cf = 'EXC:' + type(e).__name__
+        try:
+            ctx_box[0].force_reraise()
+            post = ('none', False, cf)
+        except BaseException as e:   # noqa
+            post = (getattr(e, 'vid', 4 if type(e) is type(E1) else -1), e is E1, cf)
     elif ctx_box and post_mode == 'reenter':
         E5 = make_exc('plain', 5)
         try:
@@ -204,7 +218,7 @@ def run(ctx):
     outcomes = {}
     for rec in res.records:
         for kind in CLASSES:
-            got = run_program(excutils, rec['prog'], rec['flag0'], kind, ('force', 'reenter', 'redrop')[n % 3],
+            got = run_program(excutils, rec['prog'], rec['flag0'], kind, ('force', 'reenter', 'redrop', 'capture_fail')[n % 4],
                               explicit_logger=(n % 5 != 4))
             n += 1
             want_p = rec['propagates']
@@ -231,7 +245,7 @@ def run(ctx):
             # use of the context object after the with statement is outside C09's statement: a mismatch with the
             # module (which keeps `saved` until force_reraise consumes it) is a beyond-property report
             if got['post'] is not None and rec['post'] in (1, 2) and kind != 'needs_args':
-                if got['post'][0] != rec['post'] or (rec['post'] == 1 and not got['post'][1]):
+                if got['post'][0] != rec['post'] or (rec['post'] == 1 and not got['post'][1]) or (len(got['post']) > 2 and got['post'][2] != 'RuntimeError'):
                     ctx.beyond('ExcHelpers', {'kind': 'force_reraise-after-exit', 'want': rec['post'], 'last_op': rec['prog'][-1] if rec['prog'] else 'end'},
                                {'program': rec['prog'], 'initial_reraise': rec['flag0'], 'exception_class': kind, 'observed': got['post'], 'expected': rec['post']},
                                'ctx.force_reraise() after the with statement (body %s, reraise=%s, class %s) raised %s, the module says '
@@ -389,12 +403,12 @@ def run_remove(fileutils, excutils, c, workdir):
     elif c['path'] == 'directory':
         os.mkdir(path)
     original = Plain('orig') if c['body'] != 'raises_base_exception' else MyBase('orig')
-    rm_err = OSError(13, 'scripted remove failure')
+    rm_err = OSError(13, 'scripted remove failure') if c['remove'] != 'raises_enoent' else FileNotFoundError(2, 'no such trash directory')
     removed = {'v': False}
 
     def remove(p):
         removed['v'] = True
-        if c['remove'] == 'raises':
+        if c['remove'] in ('raises', 'raises_enoent'):
             raise rm_err
         if os.path.islink(p) or os.path.isfile(p):
             os.unlink(p)
